@@ -63,7 +63,7 @@ func framePool(seed uint64) [][]byte {
 	// (satellites x signals) differ
 	for _, t := range []int{1074, 1077, 1087, 1124} {
 		for _, sh := range [][2]int{{2, 3}, {3, 2}, {6, 2}, {4, 3}, {3, 4}, {2, 6}, {12, 1}, {1, 12}} {
-			for _, pat := range []int{0, 1} {
+			for _, pat := range []int{0, 1, 2} {
 				m := &ref.MSM{Type: t, StationID: uint(r.Intn(4096)), Timestamp: uint(r.Range(1, 80000000)), CellsSent: -1}
 				for i := 0; i < sh[0]; i++ {
 					m.SatMask |= uint64(1) << uint(63-2*i)
@@ -73,7 +73,7 @@ func framePool(seed uint64) [][]byte {
 					m.SigMask |= uint32(1) << uint(30-2*i)
 				}
 				for c := 0; c < sh[0]*sh[1]; c++ {
-					on := pat == 0 || c%3 != 2 // all ones, or 110110...
+					on := pat == 0 || pat == 1 && c%3 != 2 || pat == 2 && (c/sh[1])%2 == 0 // all ones, 110110..., every second satellite without cells
 					m.CellMask = append(m.CellMask, on)
 					if on {
 						m.Sigs = append(m.Sigs, ref.Sig{RangeDelta: r.Range(-1000, 1000), PhaseDelta: r.Range(-1000, 1000), Lock: uint(r.Intn(16)), CNR: uint(1 + r.Intn(60)), RateDelta: r.Range(-100, 100)})
